@@ -137,6 +137,65 @@ fn scope(m: &Model, ctx: &mut Ctx) {
                 other => ctx.violate("C09.scope", "typed-lookup-first", &g.file, g.line,
                     &format!("find_tld_or_enum_value_by_name must first search the governing type (`get_distinguished_or_enum_value({}, ..)`), found first call with `{:?}`", typed, other)),
             }
+            // the lookup evaluated on a map in which an unrelated type that sorts first defines the same identifier: the
+            // governing type's own number wins, wherever the governing type sorts
+            {
+                use crate::eval::{Env, Evaluator, Val};
+                use std::collections::BTreeMap as Map;
+                let consts = const_resolver(m);
+                let params: Vec<String> = g.sig.inputs.iter().filter_map(|a| match a { syn::FnArg::Typed(t) => Some(tok(&t.pat)), _ => None }).collect();
+                for (what, order, governing, want) in [
+                    ("unrelated type sorts first", vec![("Alarm", 9i128), ("Colour", 1)], "Colour", 1i128),
+                    ("governing type sorts first", vec![("Colour", 1), ("Signal", 9)], "Colour", 1),
+                    ("only the governing type defines it", vec![("Colour", 1), ("Other", -1)], "Colour", 1),
+                ] {
+                    ctx.oblige("C09.scope", &format!("lookup:{}", what), true);
+                    let order2: Vec<(String, i128)> = order.iter().map(|(n, v)| (n.to_string(), *v)).collect();
+                    let hook = move |_: &Evaluator, name: &str, a: &[Val]| -> Option<Result<Val, String>> {
+                        match (name, a.first()) {
+                            (".get", Some(Val::Opaque(s))) if s == "tlds" => Some(Ok(Val::none())),
+                            (".iter", Some(Val::Opaque(s))) | (".values", Some(Val::Opaque(s))) if s == "tlds" => {
+                                Some(Ok(Val::List(order2.iter().map(|(n, v)| {
+                                    let mut f = Map::new();
+                                    f.insert("name".to_string(), Val::Str(n.clone()));
+                                    f.insert("number".to_string(), Val::int(*v));
+                                    let t = Val::Ctor("TLD".into(), vec![], f);
+                                    if name == ".iter" { Val::Tuple(vec![Val::Str(n.clone()), t]) } else { t }
+                                }).collect())))
+                            }
+                            (".get_distinguished_or_enum_value", Some(Val::Ctor(_, _, f))) => {
+                                let tname = match f.get("name") { Some(Val::Str(n)) => n.clone(), _ => String::new() };
+                                let num = match f.get("number") { Some(Val::Int { v, .. }) => *v, _ => 0 };
+                                let typed = match a.get(1) {
+                                    Some(Val::Ctor(s, p, _)) if s == "Some" => match p.first() { Some(Val::Str(t)) => Some(t.clone()), _ => Some(String::new()) },
+                                    _ => None,
+                                };
+                                // a type without the identifier is marked with a negative number
+                                let defines = num >= 0;
+                                let hit = defines && typed.map(|t| t == tname).unwrap_or(true);
+                                Some(Ok(if hit { Val::some(Val::Ctor("Integer".into(), vec![Val::int(num)], Map::new())) } else { Val::none() }))
+                            }
+                            _ => None,
+                        }
+                    };
+                    let ev = Evaluator { consts: &consts, call_hook: &hook, inline: None };
+                    let mut env = Env::new();
+                    env.insert(params.first().cloned().unwrap_or("type_name".into()), Val::Str(governing.into()));
+                    env.insert(params.get(1).cloned().unwrap_or("name".into()), Val::Str("red".into()));
+                    env.insert(params.get(2).cloned().unwrap_or("tlds".into()), Val::Opaque("tlds".into()));
+                    match ev.eval_fn_body(&g.block, &mut env) {
+                        Ok(Val::Ctor(s, p, _)) if s == "Some" => {
+                            let got = match p.first() { Some(Val::Ctor(_, q, _)) => match q.first() { Some(Val::Int { v, .. }) => Some(*v), _ => None }, _ => None };
+                            if got != Some(want) {
+                                ctx.violate("C09.scope", "governing-type-wins", &g.file, g.line,
+                                    &format!("`red` in a constraint on `{}` ({}; definitions {:?}) resolves to {:?}; it is the named number of the governing type: {}", governing, what, order, got, want));
+                            }
+                        }
+                        Ok(o) => ctx.violate("C09.scope", "governing-type-wins", &g.file, g.line, &format!("`red` in a constraint on `{}` ({}) resolves to {}", governing, what, o.show())),
+                        Err(e) => ctx.fail_closed("C09.scope", &format!("[lookup {}]: {}", what, e)),
+                    }
+                }
+            }
             ctx.oblige("C09.scope", "untyped-fallback", true);
             if calls.iter().any(|c| c == "None") {
                 ctx.violate("C09.scope", "untyped-fallback", &g.file, g.line,
